@@ -26,6 +26,7 @@ import (
 	contentpkg "oras.land/oras-go/v2/content"
 	"oras.land/oras-go/v2/errdef"
 	"oras.land/oras-go/v2/internal/descriptor"
+	"oras.land/oras-go/v2/internal/verifhook"
 )
 
 // Memory is a memory based CAS.
@@ -42,6 +43,7 @@ func NewMemory() *Memory {
 func (m *Memory) Fetch(_ context.Context, target ocispec.Descriptor) (io.ReadCloser, error) {
 	key := descriptor.FromOCI(target)
 	content, exists := m.content.Load(key)
+	verifhook.Point("cas.Fetch")
 	if !exists {
 		return nil, fmt.Errorf("%s: %s: %w", key.Digest, key.MediaType, errdef.ErrNotFound)
 	}
@@ -62,6 +64,7 @@ func (m *Memory) Push(_ context.Context, expected ocispec.Descriptor, content io
 	if err != nil {
 		return err
 	}
+	verifhook.Point("cas.Push")
 	if _, exists := m.content.LoadOrStore(key, value); exists {
 		return fmt.Errorf("%s: %s: %w", key.Digest, key.MediaType, errdef.ErrAlreadyExists)
 	}
@@ -72,6 +75,7 @@ func (m *Memory) Push(_ context.Context, expected ocispec.Descriptor, content io
 func (m *Memory) Exists(_ context.Context, target ocispec.Descriptor) (bool, error) {
 	key := descriptor.FromOCI(target)
 	_, exists := m.content.Load(key)
+	verifhook.Point("cas.Exists")
 	return exists, nil
 }
 
